@@ -388,7 +388,8 @@ def build_g3j(c):
 # ---- G4 authenticated but malformed
 @st.composite
 def g4_auth(draw):
-    what = draw(st.sampled_from(["zip-garbage", "zip-truncated", "zip-zlib", "zip-gzip", "zip-empty", "zip-trailing", "claims"]))
+    what = draw(st.sampled_from(["zip-garbage", "zip-truncated", "zip-zlib", "zip-gzip", "zip-empty", "zip-trailing", "claims",
+                                 "zip-zlib-garbage", "zip-zlib-badsum", "zip-zlib-flip", "zip-zlib-truncated"]))
     data = draw(st.binary(max_size=60))
     claims = draw(st.one_of(st.binary(max_size=30), jsonv.json_value(6).map(lambda v: json.dumps(v).encode()),
                             st.sampled_from([b"[1,2]", b'"s"', b"1", b"null", b"true", b"{", b"\xff\xfe", b"", b"NaN", b"[" * 3000 + b"]" * 3000])))
@@ -409,7 +410,12 @@ def build_g4(c):
     else:
         payload = b"hello"
         good = rjwe.deflate(b"A" * 100 + data)
-        raw = {"zip-garbage": data, "zip-truncated": good[: max(1, len(good) // 2)], "zip-zlib": zlib.compress(data),
+        zgood = zlib.compress(b"A" * 100 + data)
+        flip_at = 2 + (len(data) * 7) % (len(zgood) - 2)
+        raw = {"zip-zlib-garbage": b"\x78\x9c" + data, "zip-zlib-badsum": zgood[:-1] + bytes([zgood[-1] ^ 1]),
+               "zip-zlib-flip": zgood[:flip_at] + bytes([zgood[flip_at] ^ (1 + len(data) % 255)]) + zgood[flip_at + 1:],
+               "zip-zlib-truncated": zgood[: max(2, len(zgood) // 2)],
+               "zip-garbage": data, "zip-truncated": good[: max(1, len(good) // 2)], "zip-zlib": zlib.compress(data),
                "zip-gzip": b"\x1f\x8b\x08\x00" + data, "zip-empty": b"", "zip-trailing": good + data}[c["what"]]
     prot = {"alg": "dir", "enc": "A128GCM"}
     if raw is not None:
